@@ -64,6 +64,25 @@ func init() {
 			}
 			toks = append(toks, string(b))
 		}
+		toks = append(toks, `"null"`, `"nil"`, `"NULL"`, `"undefined"`, `"none"`, `"0"`, `"unknown"`, `"ok"`, `"Error"`, `"n/a"`, `"ne"`, `"fail"`, `"skip"`, `false`, `0`, `[]`, `{}`, `"\u0070ass"`)
+		labelSet := map[string]bool{"pass": true, "info": true, "warn": true, "error": true, "fatal": true, "NA": true, "NE": true, "reserved": true}
+		// direct: whatever decodes is one of the eight labels (the decoder ignores quotation marks), through the status
+		// decoder itself and through result and result-set documents
+		for _, t := range toks {
+			var st lint.LintStatus = 99
+			if err := st.UnmarshalJSON([]byte(t)); err == nil && !labelSet[strings.ReplaceAll(t, `"`, "")] {
+				out.Violate("C14|unknown-label-accepted", fmt.Sprintf("the status decoder accepts %s (status becomes %d)", t, int(st)), t, "an error", int(st))
+			}
+			var r lint.LintResult
+			if err := json.Unmarshal([]byte(`{"result":`+t+`}`), &r); err == nil && json.Valid([]byte(t)) {
+				var sv string
+				if json.Unmarshal([]byte(t), &sv) != nil || !labelSet[strings.ReplaceAll(sv, `"`, "")] {
+					if !(t == "null") || true {
+						out.Violate("C14|unknown-label-accepted-in-result", fmt.Sprintf("a result document with \"result\": %s decodes without error (status %d)", t, int(r.Status)), t, "an error", int(r.Status))
+					}
+				}
+			}
+		}
 		seen := map[string]bool{}
 		for _, t := range toks {
 			if seen[t] {
